@@ -4,6 +4,9 @@ import json, os
 HERE = os.path.dirname(os.path.dirname(os.path.abspath(__file__)))
 
 CHECKS = {
+ "C11": dict(level="exploration", engine="rapidcheck + valgrind", technique="rapidcheck-generated public shapes x random secrets with memcheck definedness used as a dynamic taint oracle on the shipped -O3 object code (assembly included); VALGRIND_COUNT_ERRORS brackets each case so reports shrink",
+             text="32 keyed primitives; every key/message/password/system-source/masking-word byte is marked undefined, public values stay defined, outputs and the accept/reject result are declassified after the call; memcheck then reports exactly the conditional jumps and address computations that depend on secrets. Exploration: the oracle is binary-level and exact for executed paths; the generator covers every length branch (0..5 blocks, rate-1/rate/rate+1).",
+             note="Dynamic (executed paths only); no view of instruction timing or micro-architecture; trusts memcheck's definedness propagation; C++ wrappers that branch on the (public) accept/reject result are not tainted.", ref="4/C11"),
  "C16": dict(level="exploration", technique="rapidcheck-generated multi-threaded workloads (2..16 threads, barrier start, generated yields, per-thread objects + shared const objects) under gcc ThreadSanitizer builds of library and harness; per-thread results compared with the sequential run",
              text="A happens-before race detector reports a conflicting pair even when the two accesses did not overlap in time, so hidden mutable global/static state shows up on the first round that touches it from two threads; results are additionally compared with the sequential run of the same operations.",
              note="The harness does not own the scheduler: the claim is race-freedom of generated workloads under a happens-before detector, not an enumeration of interleavings; the x86-64 assembly is uninstrumented (it only touches its arguments).", ref="4/C16"),
